@@ -221,7 +221,8 @@ def compile_fn(fn: Fn, glob: dict, exact: bool = True):
         g.setdefault("__builtins__", __builtins__)
         exec(code, g)
         if fn.owner:
-            out = g[fn.owner].__dict__[name]
+            d = g[fn.owner].__dict__
+            out = d[name] if name in d else d[f"_{fn.owner.lstrip('_')}{name}"]     # private names are mangled in the class dict
             if fn.owner in glob:
                 g[fn.owner] = glob[fn.owner]   # the real binding of the owner's name stays visible to the body
             return out
